@@ -18,6 +18,11 @@ CLAIMED = {
    "DESIGN.md §4 C17",
    "Trusted: go/types method sets, the mutating/read-only classification table of the two interfaces, the finite-domain flag interpreter, call-graph over-approximation (VTA∪CHA). Assumes the wrapped FS honours a read-only access mode and POSIX read-only descriptors cannot modify a file; embedder-supplied fs.File values that implement io.Writer are an embedder-granted capability.",
    "static: method-set exhaustiveness (go/types) + finite-domain evaluation of flag dispatch + call-graph capability reachability (go/ssa, VTA)"),
+ "C10": ("other",
+   "Static decision of five structural necessary conditions of the registry property for every schedule: must-lockset dataflow over all accesses to the registry/engine maps/keep-alive lists (83 obligations), closed words touched only by Load/CompareAndSwap, resource release control-dependent on a won CAS (close-once), every compile/instantiate entry dominated by the runtime-closed check, registry insert dominated by sentinel and name-taken tests. A violation of any of them yields a concrete racing or post-close history that breaks the property; linearizability of whole histories is NOT decided.",
+   "DESIGN.md §4 C10",
+   "Trusted: frozen table guarded-field → mutex (checker/props/c10.go); closures passed to sort/slices helpers run synchronously; finalizers run on unreachable objects; syntactic paths (no infeasible-path pruning).",
+   "static: must-lockset dataflow + dominance (must-pass-through) checks on go/ssa"),
 }
 
 NOT_APPLICABLE = {
